@@ -14,6 +14,12 @@ try:
     STORAGE_GEN_STATUS = translate_c17_r3.generate(core.REPO, os.path.join(core.COQ, "gen"))
 except Exception as _ex:  # the generator itself broke: same fallback as an unparseable source
     STORAGE_GEN_STATUS = "unparsed generator-failed: %s" % str(_ex)[:200]
+# round 4: coq/gen/StorageGen4.v (sqrt_rem_large, the modular rings, the parsers, to_chunks / from_chunks)
+try:
+    import translate_c17_r4
+    STORAGE_GEN4_STATUS = translate_c17_r4.generate(core.REPO, os.path.join(core.COQ, "gen"))
+except Exception as _ex:
+    STORAGE_GEN4_STATUS = "unparsed generator-failed: %s" % str(_ex)[:200]
 
 
 MIRI_BUDGET_S = 1500   # wall-clock budget of the Miri support run (thorough tier only)
@@ -48,7 +54,7 @@ def miri_support(seed, exes):
     rng = core.Rng(seed ^ 0xC17)
     lines = [l.strip() for l in open(os.path.join(core.ROOT, "corpus", "C17.txt")) if l.strip() and l.startswith("hist")]
     for i in range(MIRI_GENERATED):
-        lines.append("hist " + " ; ".join(gen_boundary(rng, i % 27)))
+        lines.append("hist " + " ; ".join(gen_boundary(rng, i % 34)))
     lines += ["scr 19 19", "scr 32 19", "scr 1a 3"]
     numbered = list(enumerate(lines))
     d = core.harness_dir("default")
@@ -108,15 +114,22 @@ def miri_support(seed, exes):
 
 def extra_phase(tier, seed, exes, oracle):
     word = STORAGE_GEN_STATUS.split(" ", 1)[0]
+    word4 = STORAGE_GEN4_STATUS.split(" ", 1)[0]
     res = {
         "evaluations": 0,
-        "hist": {"translator_c17:StorageGen:" + word: 1},
+        "hist": {"translator_c17:StorageGen:" + word: 1, "translator_c17:StorageGen4:" + word4: 1},
         "nontrivial": [],
         "samples": [{"fragment": "coq/gen/StorageGen.v (tools/translate_c17_r3.py from integer/src/buffer.rs, repr.rs, add_ops.rs, mul_ops.rs, "
                                  "pow.rs, shift_ops.rs, mul/mod.rs, mul/karatsuba.rs, mul/toom_3.rs, sqr/mod.rs)",
                      "status": STORAGE_GEN_STATUS,
                      "tied_by": "C17_tie_buffer, C17_tie_requests, C17_tie_scratch_plans, C17_gen_capacity_compact, C17_scratch_*_requirement, "
                                 "the extended machine (StorageOps2.v) and the extraction use the generated definitions directly" if word == "ok"
+                                else "correspondence run only (source not parsed; previous copy marked STALE)"},
+                    {"fragment": "coq/gen/StorageGen4.v (tools/translate_c17_r4.py from integer/src/root_ops.rs, root.rs, modular/repr.rs, modular/convert.rs, "
+                                 "modular/mul.rs, div_const.rs, parse/power_two.rs, parse/non_power_two.rs, convert.rs)",
+                     "status": STORAGE_GEN4_STATUS,
+                     "tied_by": "the machine of StorageOps3.v and the scratch requirements of ScratchOps3.v are stated over the generated definitions "
+                                "(C17_sqrt_*, C17_ring_*, C17_parse_*, C17_chunks_*, C17_scratch_sqrt / _ring_mul)" if word4 == "ok"
                                 else "correspondence run only (source not parsed; previous copy marked STALE)"}],
         "failures": [],
     }
@@ -138,7 +151,7 @@ CASE_TIMEOUT = {"quick": 30, "thorough": 120}
 CONFIGS = ["default", "release"]
 SHRINK = True
 
-LEVEL_TEXT = ("Machine-checked Coq theorems (53 pinned statements) about an abstract machine that transcribes integer/src/buffer.rs and repr.rs "
+LEVEL_TEXT = ("Machine-checked Coq theorems (83 pinned statements) about an abstract machine that transcribes integer/src/buffer.rs and repr.rs "
               "(every assert!, debug_assert! and unsafe-block precondition is an explicit guard, the allocator is a ghost heap): Repr::from_buffer "
               "establishes the representation invariant from any owned buffer; construction, clone, clone_from between values of any sizes (also "
               "statics), ones, drop, move, swap, neg, abs, the thirteen binary operators (+ - * & | ^ / % and the signed ones) in every call form, "
@@ -154,20 +167,38 @@ LEVEL_TEXT = ("Machine-checked Coq theorems (53 pinned statements) about an abst
               "(coq/gen/StorageGen.v) and the theorems are stated over the generated definitions. The real code is tied to the machine by a "
               "correspondence run under a guard/counting allocator (layout of every value after every step, allocation ledger, values, exact "
               "capacities; two build profiles) and, for the scratch memory, by bisecting the smallest scratch block with which the real kernel "
-              "still runs (it equals the demand of the modelled allocation plans).")
+              "still runs (it equals the demand of the modelled allocation plans). Round 4 extends the machine and the history theorem to: sqrt / "
+              "sqrt_rem (sqrt_rem_large's indices and truncations are in bounds because the shifted copy of a normalized operand has EXACTLY "
+              "2 * ((len + 1) / 2) words - proved at value level for every word size >= 2), the modular rings (ConstDivisor::new / value, "
+              "Reduced from_ubig / one / clone / clone_from between rings of any lengths / residue / pow / drop: a Reduced value owns a "
+              "Box<[Word]> of exactly modulus.len() words; Rem and Div by a ConstDivisor), IBig & | ^ ! with negative operands (the sign tables "
+              "over sub_one / add_one / and_not), IBig << and >> of negative values, the parsers (the buffer of estimated size of the "
+              "power-of-two parser is never too small, Buffer::allocate(groups) of parse_chunk holds every carry; an invalid digit drops the "
+              "buffer), to_chunks / from_chunks, and to the documented panics raised after operands were taken (ConstDivisor::new(0), sqrt of a "
+              "negative number, division by zero): the ledger is balanced at each. pow_large_base is proved WITH the debug_assert!(len >= 2) of "
+              "its inner multiplications. Scratch memory: root::memory_requirement_sqrt_rem covers the whole Karatsuba-sqrt recursion and "
+              "modular::mul_memory_requirement covers mul_normalized / sqr_normalized for every length (over the peak models of C02, whose "
+              "sufficiency theorems for division and multiplication are cited); requirement monotonicity is proved. The new fragments are "
+              "regenerated into coq/gen/StorageGen4.v.")
 LEVEL_NOTE = ("PARTIAL: the theorems are about the abstract machine, not about the Rust unsafe blocks themselves (pointer arithmetic, transmute "
               "layout equality, realloc are outside every theorem; the guard allocator with red zones, poisoning and a quarantine searches for "
               "their failures, and the thorough tier runs the corpus and threshold histories under cargo +nightly miri as SUPPORT). Word contents "
-              "enter at value level; two value-level facts are therefore not guards of the machine: inside pow_large_base the debug_assert!(len >= 2) "
-              "of mul_large / square_large on the intermediate powers, and the Lehmer kernel gcd::gcd_in_place, which enters as a parameter "
-              "constrained by its length contract. Still only compared (invariant + ledger + value after every step): sqrt / nth_root, the modular "
-              "ring operations other than ConstDivisor::new, bit operations and shifts on negative IBig operands, signed-byte / string / chunk "
-              "conversions, and the scratch memory of division, gcd and sqrt.")
-TECHNIQUE = ("Coq proof over an abstract storage machine and an offset machine of the scratch allocator (invariants by induction over histories / "
-             "recursion depth), fragments regenerated from the source, + extracted-machine correspondence run under a guard allocator")
+              "enter at value level: the sqrt steps therefore carry the premise that the operand consists of word digits (the history theorem is "
+              "stated for histories whose sqrt operands meet it along the run; all other steps need no premise), and the Lehmer kernel "
+              "gcd::gcd_in_place still enters as a parameter constrained by its length contract. Still only compared (invariant + ledger + value "
+              "after every step): nth_root for n >= 3 (Newton iteration over pow / div / add), the inverse and the Reducer-trait entry points of the "
+              "rings (inv, rmul, rinv, rpow, rneg; the extended Lehmer gcd), parsing beyond 256 words-groups (divide and conquer over mul), "
+              "formatting (to_string builds Strings, not word buffers), signed-byte conversions, and the scratch memory of gcd.")
+TECHNIQUE = ("Coq proof over an abstract storage machine and an offset / peak machine of the scratch allocator (invariants by induction over histories / "
+             "recursion depth; value-level length lemmas where indices depend on contents), fragments regenerated from the source, + "
+             "extracted-machine correspondence run under a guard allocator")
 RULE = ("a case is a history of 1-40 steps over a pool of 4 values; steps = constructors (from_words with padding, bytes, primitives, ones, "
         "statics) x arithmetic/bit/shift operations in every call form (vv vr rv rr and the assigning forms, also with both operands the same "
-        "slot) x clone/clone_from/drop/move/swap/neg x pow/sqr/gcd/div_rem/next_power_of_two/clear_high_bits/split_bits/conversion round trips; "
+        "slot) x clone/clone_from/drop/move/swap/neg x pow/sqr/gcd/div_rem/next_power_of_two/clear_high_bits/split_bits/conversion round trips x "
+        "sqrt/isqrt/sqrt_rem (3, 4, odd/even lengths, every shift class, perfect squares +-1) x ring steps (new, new(0), reduce, mul, clone_from "
+        "between rings of equal/different lengths, rem/div by the ConstDivisor, pow) x IBig & | ^ ! >> << with negative operands x "
+        "from_str_radix of generated texts (digit counts at digits_per_word and word boundaries, separators, an invalid digit first/last/middle; "
+        "radix 2..36) x to_chunks/from_chunks; "
         "sizes drawn from word counts {0,1,2,3,4,5,7,8,9,16,17,24,25,31,32,33,48,64,100} and from positions that move a value across the "
         "inline/heap boundary (2<->3 words) and across the reallocation thresholds (len = capacity, capacity = max_compact_capacity(len) +-1; "
         "pow exponents at wexp -1/0/+1, 2 wexp, quotient 2^j -1/0/+1). One case in 40 is a scratch probe `scr la lb` (lb at the schoolbook / "
@@ -175,15 +206,17 @@ RULE = ("a case is a history of 1-40 steps over a pool of 4 values; steps = cons
         "one value lived on the heap (resp. scratch memory was needed); distinct = distinct case texts.")
 EXPLANATION = ("Theorems (coq/props/C17.v) are about the storage machine of coq/theories/Int/StorageModel.v + StorageOps2.v and the scratch offset "
                "machine of ScratchModel.v; coq/gen/StorageGen.v is regenerated from the Rust sources at plug-in import (status in the evidence). "
+               "Round 4: StorageOps3.v (+ coq/gen/StorageGen4.v, ScratchOps3.v over C02's peak models). "
                "Tie: after every step of every history the harness reports the layout of all values and the allocator ledger; the oracle checks "
                "them against the extracted layout specification and runs the extracted machine beside the implementation (exact capacities = "
                "fidelity statistic; for gcd either buffer may hold the result). Scratch probes compare the reserved words with the regenerated "
                "formula and the smallest working block (bisection with verif_hooks::mul_kernel_scratch) with the demand of the modelled plans.")
 TRUSTED_BASE = [
     "Coq 8.16.1 kernel",
-    "the transcription of buffer.rs / repr.rs / memory.rs and of the buffer handling of add_ops, mul_ops, div_ops, shift_ops, bits.rs, pow.rs, gcd_ops.rs into coq/theories/Int/StorageModel.v, StorageOps2.v, ScratchModel.v (by hand; compared on every run: exact capacities, exact scratch demand); formulas, tests, thresholds and allocation sizes are regenerated (tools/translate_c17_r3.py, a small expression translator) and tied by C17_tie_*",
+    "the transcription of buffer.rs / repr.rs / memory.rs and of the buffer handling of add_ops, mul_ops, div_ops, shift_ops, bits.rs, pow.rs, gcd_ops.rs, root_ops.rs, div_const.rs, modular/*.rs, parse/*.rs, convert.rs (chunks) into coq/theories/Int/StorageModel.v, StorageOps2.v, StorageOps3.v, ScratchModel.v, ScratchOps3.v (round 4 fragments regenerated by tools/translate_c17_r4.py into coq/gen/StorageGen4.v; the peak models of division / multiplication scratch memory and their sufficiency theorems are those of C02: Int/DivMemModel.v, DivMemProofs.v) (by hand; compared on every run: exact capacities, exact scratch demand); formulas, tests, thresholds and allocation sizes are regenerated (tools/translate_c17_r3.py, a small expression translator) and tied by C17_tie_*",
     "extraction: ExtrOcamlBasic + ExtrOcamlZBigInt + coq/extract/FastZ.v; OCaml 4.13.1 + zarith; oracle/common.ml, oracle/driver_c17.ml (the value semantics of the steps are zarith arithmetic in the driver)",
     "Rust harness harness/src/bin/c17.rs incl. its guard/counting #[global_allocator] (red zones, poisoning, quarantine, realloc always moves); verif_hooks::repr_layout_ibig, mul_kernel_scratch, mul_scratch_words",
+    "Box<[Word]> (std): clone allocates exactly len words, clone_from copies in place iff the lengths agree, drop frees len words (modelled, not proved about std)",
     "the unsafe blocks of buffer.rs/repr.rs/memory.rs do what their guards assume (NOT proved; searched by the guard allocator and, in the thorough tier, by a Miri support run over the corpus and ~120 threshold histories)",
 ]
 ASSUMPTIONS = [
@@ -344,9 +377,35 @@ def sim(v, t):
         if v[s(2)] >= 0:
             import math
             v[s(1)] = math.isqrt(v[s(2)])
+    elif op == "isqrt":
+        if v[s(2)] >= 0:
+            import math
+            v[s(1)] = math.isqrt(v[s(2)])
+    elif op == "sqrtrem":
+        d, e, a = s(1), s(2), s(3)
+        if d != e and v[a] >= 0:
+            import math
+            x = v[a]
+            q = math.isqrt(x)
+            v[d] = q
+            v[e] = x - q * q
+    elif op == "inot":
+        x = v[s(3)]
+        if t[1] == "v":
+            v[s(3)] = 0
+        v[s(2)] = ~x
+    elif op == "pstr":
+        x = parse_text(t[3], s(2))
+        if x is not None:
+            v[s(1)] = x
     elif op == "ring":
         kind, d, a, b, e = t[1], s(2), s(3), s(4), s(5)
         m = abs(v[b])
+        if kind == "new0":
+            if m != 0:
+                v[b] = 0
+                v[d] = m
+            return
         if m <= 1:
             return
         import math
@@ -355,7 +414,7 @@ def sim(v, t):
         if kind == "new":
             v[b] = 0
             r = m
-        elif kind == "res":
+        elif kind in ("res", "cf"):
             r = v[a] % m
         elif kind == "mul":
             x, y = v[a] % m, v[d] % m
@@ -385,6 +444,59 @@ def sim(v, t):
         p = small_prim(t[2], z(3))
         d = s(1)
         v[d] = v[d] + p if op == "addp" else (v[d] - p if op == "subp" else v[d] * p)
+
+
+DIGITS = "0123456789abcdefghijklmnopqrstuvwxyz"
+
+
+def parse_text(text, radix):
+    """IBig::from_str_radix: optional sign, digits and '_' separators, at least one digit"""
+    neg = text.startswith("-")
+    body = text[1:] if text[:1] in "+-" else text
+    acc, seen = 0, False
+    for c in body:
+        if c == "_":
+            continue
+        d = DIGITS.find(c.lower())
+        if d < 0 or d >= radix:
+            return None
+        acc = acc * radix + d
+        seen = True
+    if not seen:
+        return None
+    return -acc if neg else acc
+
+
+def fmt_radix(x, radix):
+    if x == 0:
+        return "0"
+    a, out = abs(x), ""
+    while a:
+        out = DIGITS[a % radix] + out
+        a //= radix
+    return ("-" if x < 0 else "") + out
+
+
+def gen_text(rng, radix, ndigits, style):
+    """a text for the parser: ndigits digits (the first one nonzero), underscores / an invalid digit placed by style"""
+    ds = [DIGITS[rng.below(radix)] for _ in range(ndigits)]
+    if ds and ds[0] == "0":
+        ds[0] = "1"
+    if rng.chance(1, 4):
+        ds = [c.upper() for c in ds]
+    txt = "".join(ds)
+    if style == 1 and ndigits > 1:
+        k = rng.range(1, ndigits)
+        txt = txt[:k] + "_" + txt[k:]
+    elif style == 2:
+        txt = "".join(c + ("_" if rng.chance(1, 3) else "") for c in txt)
+    elif style in (3, 4, 5) and ndigits > 0:
+        bad = rng.choice(["!", "z" if radix < 36 else "?", DIGITS[radix] if radix < 36 else "~", "x", " "]).replace(" ", ".")
+        k = {3: 0, 4: ndigits - 1, 5: rng.below(ndigits)}[style]
+        txt = txt[:k] + bad + txt[k + 1:]
+    elif style == 6:
+        txt = "000_0" + txt
+    return rng.choice(["", "", "-", "+"]) + txt
 
 
 FORMS = ["vv", "vr", "rv", "rr", "av", "ar"]
@@ -430,7 +542,79 @@ def gen_boundary(rng, k=None):
     fw = lambda slot, x: "fw %x %s 0" % (slot, hx(x))
     dw = lambda slot, x: "dw %x %s 0" % (slot, hx(x))
     if k is None:
-        k = rng.below(27)
+        k = rng.below(34)
+    if k == 27:
+        # sqrt / sqrt_rem of a long value: 3 and 4 words (the four-word base case of the kernel), odd / even lengths, a top word with
+        # an even / odd number of leading zeros (shift = 64 * (len & 1) + (lz & !1): 0, < 64, >= 64), perfect squares, s^2 - 1, s^2 + 2s
+        nn = rng.choice([3, 3, 4, 4, 5, 6, 7, 8, 9, 16, 17, 33, 64, 65, 70])
+        lz = rng.choice([0, 0, 1, 2, 3, 62, 63, rng.below(64)])
+        x = (1 << (64 * nn - 1 - lz)) | rng.bits(64 * nn - 1 - lz)
+        if rng.chance(1, 3):
+            import math
+            r0 = math.isqrt(x)
+            x = rng.choice([r0 * r0, r0 * r0 - 1, r0 * r0 + 2 * r0, (r0 + 1) * (r0 + 1)])
+            if nwords(x) < 3:
+                x = 1 << 128
+        e2 = [i for i in range(4) if i != t][rng.below(3)]
+        return [fw(d, x * rng.choice([1, 1, 1, -1])), rng.choice(["sqrt %x %x" % (t, d), "isqrt %x %x" % (t, d), "sqrtrem %x %x %x" % (t, e2, d), "sqrtrem %x %x %x" % (t, e2, d)])]
+    if k == 28:
+        # IBig & | ^ ! with negative operands: sub_one of 2^(64 j) (the magnitude loses a word), add_one of an all-ones magnitude at
+        # len = capacity (push_resizing reallocates), and_not against a shorter / longer / one- and two-word operand
+        x = rng.choice([1 << (64 * n), (1 << (64 * n)) - 1, top_set(rng, n), (1 << 128), (1 << 128) - 1, rng.bits(128) | 1 << 127, 1, 0])
+        ny = rng.choice([n, n, c, c + 1, 3, 2, 1, 0])
+        y = rng.choice([1 << (64 * ny), (1 << (64 * ny)) - 1, top_set(rng, ny), x, x + 1, x - 1]) if ny else rng.choice([0, 1])
+        sx, sy = rng.choice([(1, -1), (-1, 1), (-1, -1), (-1, -1), (1, 1)])
+        st = [fw(d, sx * x) if nwords(x) > 2 else dw(d, sx * x), fw(e, sy * abs(y)) if nwords(y) > 2 else dw(e, sy * abs(y))]
+        if nwords(x) > 2 and sx > 0 and rng.chance(1, 3):
+            st.insert(1, "setbit %x %x" % (d, 64 * default_cap(nwords(x)) - 1))   # len = capacity
+        if rng.chance(1, 5):
+            return st[:1] + ["inot %s %x %x" % (rng.choice(["v", "r"]), t, d)]
+        a, b = rng.choice([(d, e), (e, d)])
+        return st + ["%s %s %x %x %x" % (rng.choice(["iand", "ior", "ixor"]), form, t, a, b)]
+    if k == 29:
+        # IBig >> n of a negative value: low bits zero / nonzero (floor), down to 3 / 2 / 1 / 0 words, -1; IBig << n of a negative value
+        big = rng.choice([3, 4, 5, 8, 16, 17])
+        keepw = rng.choice([0, 1, 2, 3, big - 1])
+        sh = 64 * (big - keepw) + rng.choice([0, 0, 1, 63])
+        x = top_set(rng, big)
+        if rng.chance(1, 2):
+            x = (x >> min(sh, 64 * big - 1)) << min(sh, 64 * big - 1) or 1 << (64 * big - 1)
+        if rng.chance(1, 4):
+            return [fw(d, -x), "ishl %s %x %x %x" % (rng.choice(["v", "r"]), t, d, max(0, rng.choice([0, 1, 64, 64 * (default_cap(big) - big), 64 * (default_cap(big) - big) + 1])))]
+        return [fw(d, -x), "ishr %s %x %x %x" % (rng.choice(["v", "r"]), t, d, max(0, sh))]
+    if k == 30:
+        # parse, power-of-two radix: digit counts at digits_per_word -1/0/+1 and where src.len() * log_radix crosses a word boundary,
+        # underscores (counted in the estimate), an invalid digit at the first / last / a middle position (the buffer is dropped)
+        radix = rng.choice([2, 4, 8, 16, 16, 32])
+        lr = radix.bit_length() - 1
+        dpw = 64 // lr
+        nd = rng.choice([1, dpw - 1, dpw, dpw + 1, 2 * dpw, 2 * dpw + 1, 3 * dpw, 3 * dpw + 1, (64 * 3) // lr + 1, (64 * 17) // lr, (64 * 17) // lr + 1, rng.range(1, 40 * dpw)])
+        return ["pstr %x %x %s" % (t, radix, gen_text(rng, radix, max(1, nd), rng.below(7)))]
+    if k == 31:
+        # parse, other radixes: one group (a word), 2 .. 256 groups of digits_per_word digits (parse_chunk: Buffer::allocate(groups)), a short
+        # first group, an invalid digit in the first / last / a middle group; beyond 256 groups the divide-and-conquer path
+        radix = rng.choice([10, 10, 3, 7, 36, 5])
+        dpw = 1
+        while radix ** (dpw + 1) < 1 << 64:
+            dpw += 1
+        g = rng.choice([1, 1, 2, 2, 3, 4, 5, 17, 64, 255, 256, 256, 257])
+        nd = rng.choice([g * dpw, g * dpw, (g - 1) * dpw + 1, (g - 1) * dpw + rng.range(1, dpw + 1)])
+        return ["pstr %x %x %s" % (t, radix, gen_text(rng, radix, max(1, nd), rng.below(7)))]
+    if k == 32:
+        # to_chunks / from_chunks: one chunk (the value itself), chunk widths below / at / above a word, many one-bit chunks of a short value
+        x = rng.choice([top_set(rng, n), top_set(rng, 3), rng.bits(128) | 1 << 127, rng.bits(64) | 1, (1 << (64 * n)) - 1]) * rng.choice([1, 1, -1])
+        bits = abs(x).bit_length()
+        kb = rng.choice([bits, bits + 1, bits - 1, 64, 63, 65, 128, 127, 129, 1 if bits <= 200 else 7, 7, 200, 64 * n])
+        return [fw(d, x) if nwords(x) > 2 else dw(d, x), "rt %x chunks %x" % (d, max(1, kb))]
+    if k == 33:
+        # rings: Reduced::clone_from between rings whose moduli have the same / different lengths (Box<[Word]>::clone_from), ConstDivisor::new(0)
+        m1 = top_set(rng, n) | 1
+        m2 = rng.choice([top_set(rng, n) | 1, top_set(rng, n + 1), top_set(rng, 3), rng.bits(128) | 1 << 127, rng.bits(64) | 2, 0, 1])
+        x = rng.choice([top_set(rng, rng.choice([1, 2, 3, n, 2 * n])), 0, m1 - 1, m1, m1 + 1]) * rng.choice([1, -1])
+        if rng.chance(1, 6):
+            return [fw(d, x) if nwords(x) > 2 else dw(d, x), dw(e, rng.choice([0, 0, 1])), "ring new0 %x %x %x 0" % (t, d, e)]
+        e2 = [i for i in range(4) if i not in (d, e)][rng.below(2)]
+        return [fw(d, m1), fw(e, m2) if nwords(m2) > 2 else dw(e, m2), fw(e2, x) if nwords(x) > 2 else dw(e2, x), "ring cf %x %x %x 0" % (e, e2, d)]
     if k == 21:
         # pow with a one-word base: shortcuts (0, 1, 2, powers of two: set_bit), exp < wexp / < 2 wexp (inline), the loop of
         # pow_word_base (exp / wexp >= 2) with exponents whose quotient is 2, 3, 2^j - 1, 2^j, 2^j + 1; negative bases; even bases
@@ -666,7 +850,7 @@ def gen_boundary(rng, k=None):
     return [fw(d, x) if x >> 128 else dw(d, x), "%s %x %s %s" % (rng.choice(["subp", "addp"]), d, rng.choice(["u64", "i64"]), hx(rng.choice([1, 5, 6, M64 >> 1])))]
 
 
-RING_KINDS = ["new", "res", "res", "mul", "inv", "pow", "pow", "rem", "remv", "div", "rmul", "rinv", "rpow", "rneg"]
+RING_KINDS = ["new", "res", "res", "mul", "mul", "cf", "cf", "inv", "pow", "pow", "rem", "remv", "div", "rmul", "rinv", "rpow", "rneg"]
 
 
 def gen_ring(rng, v, fresh=None):
@@ -780,7 +964,9 @@ def gen_step(rng, v):
             e = rng.below(200)
         else:
             e = rng.range(0, max(1, min(40, (MAXW * 64) // max(1, abs(x).bit_length()))))
-        return rng.choice(["pow %x %x %x" % (d, a, e), "sqr %x %x" % (d, a) if nwords(x) * 2 <= MAXW else "sqrt %x %x" % (d, a), "sqrt %x %x" % (d, a)])
+        e2 = (d + 1 + rng.below(3)) % 4
+        return rng.choice(["pow %x %x %x" % (d, a, e), "sqr %x %x" % (d, a) if nwords(x) * 2 <= MAXW else "sqrt %x %x" % (d, a), "sqrt %x %x" % (d, a),
+                           "isqrt %x %x" % (d, a), "sqrtrem %x %x %x" % (d, e2, a), "inot %s %x %x" % (rng.choice(["v", "r"]), d, a)])
     if k < 95:
         ty = rng.choice(["u64", "u8", "i64"])
         x = rng.choice([0, 1, 2, 255, (1 << 64) - 1, 1 << 63, rng.bits(64), -1, -rng.bits(63)])
@@ -791,6 +977,9 @@ def gen_step(rng, v):
     if k < 97:
         return gen_ring(rng, v)
     if k < 99:
+        if rng.chance(1, 4):
+            radix = rng.choice([2, 8, 16, 32, 10, 10, 7, 36])
+            return "pstr %x %x %s" % (d, radix, gen_text(rng, radix, rng.choice([1, 5, 16, 17, 20, 40, 64, 65, 100, 300]), rng.below(7)))
         kind = rng.choice(["le", "be", "ule", "ube", "words", "parts", "str10", "str16", "str7", "chunks", "u128", "i128", "ubig"])
         if kind == "chunks":
             return "rt %x chunks %x" % (d, rng.choice([1, 7, 63, 64, 65, 128, 200]) if nwords(v[d]) < 40 else 64)
